@@ -265,6 +265,36 @@ def run(ctx):
             ctx.violation(f"frames {fr} arriving in one read with rx_seq {rx}: events {got} (rx_seq {rx_after}), expected {want} (rx_seq {rx_want}): every DATA frame "
                           f"is answered by its own ACK or NAK, in order", {"kind": "receiver-read"}, {"read": True, "rx": rx, "frames": fr})
     ctx.cov["distinct_nontrivial"] = nontriv
+    # an upper layer that raises while it is handed a frame (a payload it cannot make sense of, a handler bug): whatever becomes of
+    # the exception, the frame has had its one answer by then - nothing further is written for it, and the next frame is judged
+    # by the advanced counter (oracle only)
+    for rx in range(8):
+        p, log = ashlib.make_proto(rx, 0)
+        up = p._ezsp_protocol
+        for meth in ("data_received", "reset_received", "error_received"):
+            orig = getattr(up, meth)
+
+            def raising(x, orig=orig):
+                orig(x)
+                raise RuntimeError("the upper layer raised")
+            setattr(up, meth, raising)
+        frames = [f"D:{rx}:0:0:ee", f"D:{(rx + 1) % 8}:0:0:aa", f"D:{(rx + 1) % 8}:1:0:aa", "K:2:2", "E:2:81"]
+        for k, fs in enumerate(frames):
+            start = len(log)
+            try:
+                p.data_received(wire_of(fs))
+            except Exception:  # noqa: BLE001  (where it ends up is the transport's business)
+                pass
+            ctx.cov["evaluations"] += 1
+            ctx.count("upper-layer-raises")
+            writes = [e for e in log[start:] if e[0] == "W"]
+            if k == 3:
+                p._rx_seq = p._rx_seq   # (after the RSTACK the counters are zero; nothing to adjust)
+            want = 1 if fs[0] == "D" else 0
+            if len(writes) != want:
+                ctx.violation(f"frame {fs} handed to an upper layer that raises (rx_seq {rx} at the start): {len(writes)} frames written in answer ({writes}), "
+                              f"expected exactly {want}", {"kind": "upper-raises"}, {"kind": "upper-raises", "rx": rx})
+                break
     ctx.cov["rule"] = (f"two to six frames of the alphabet arriving in ONE read through data_received (all pairs sampled in quick, exhaustive in thorough; random longer reads): the events equal the frame-by-frame rules; every sequence of length 1..2 over a {len(al)}-letter frame alphabet (DATA for all frmNum x reTx x two ackNums, ACK, NAK, RST, RSTACK/ERROR with software/other/undefined codes) "
                        "from each of the 8 rx_seq states (exhaustive); length-3 sequences (sampled in quick, exhaustive in thorough); random sequences with ack futures installed, "
                        "failed flag and tx_seq varied; 200-frame runs wrapping the frame number; non-trivial = distinct case containing an accepted and a rejected DATA frame")
@@ -277,6 +307,14 @@ search = run
 def replay(ctx, obj):
     logging.disable(logging.CRITICAL)
     r = obj["replay"]
+    if r.get("kind") == "upper-raises":
+        before = len(ctx.violations)
+        run(ctx)
+        bad = [v for v in ctx.violations[before:] if v["key"].get("kind") == "upper-raises"]
+        print(f"replay upper layer that raises: {'FAILS: ' + bad[0]['what'] if bad else 'ok'}")
+        if bad:
+            print(f"VIOLATION property={ctx.pid} replay=replay")
+        return 1 if bad else 0
     loop = asyncio.new_event_loop()
     out = ctx.driver([f"c03 wire - A:0:0:{n}" for n in range(8)] + [f"c03 wire - N:0:0:{n}" for n in range(8)])
     ackw = [o.split()[1] for o in out[:8]]
